@@ -191,6 +191,11 @@ class SBool(Sym):
     def __index__(self):
         raise HarnessError('symbolic bool used as index')
 
+    def __lt__(self, o): return as_sint(self) < as_sint(o)
+    def __le__(self, o): return as_sint(self) <= as_sint(o)
+    def __gt__(self, o): return as_sint(self) > as_sint(o)
+    def __ge__(self, o): return as_sint(self) >= as_sint(o)
+
     def __add__(self, o):
         return as_sint(self) + o
 
@@ -502,6 +507,7 @@ class Engine:
         self.pos = 0
         self.vars = {}          # name -> z3 const, per path (deterministic names)
         self.char_free = {}     # string variable name -> characters it certainly does not contain
+        self.str_meta = {}      # string variable name -> (maxlen, alphabet) when both are declared
         self._counter = {}
         self.on_path_end = []   # callbacks (generator threads cleanup)
         self.cvc5_first = True
@@ -825,6 +831,7 @@ class Engine:
             self._path_zmodel = None
             self.vars = {}
             self.char_free = {}
+            self.str_meta = {}
             self._counter = {}
             prev = ENGINE
             ENGINE = self
